@@ -496,8 +496,8 @@ func (r *syncRunner) exec1(op string) (string, string) {
 			if !r.env.fc.finishHeld() {
 				return false
 			}
-			if ctx == "import-rescan" && os.Getenv("VX_NO_SETTLE") == "" {
-				time.Sleep(2 * time.Millisecond)
+			if ctx == "import-rescan" {
+				settleRescanHandOver()
 			}
 			r.inflight, r.missed = "", false
 			return true
@@ -682,9 +682,7 @@ func (r *syncRunner) exec1(op string) (string, string) {
 			// ErrWalletShuttingDown on the job's error channel, which ImportPrivateKey never drains (it still holds the
 			// rescan RPC's nil) — the goroutine blocks for ever and WaitForShutdown never returns.  Give the hand-over
 			// time to complete before a following `stop` (env.stop has a timeout for the case it still happens).
-			if os.Getenv("VX_NO_SETTLE") == "" { // set to reproduce the hang
-				time.Sleep(2 * time.Millisecond)
-			}
+			settleRescanHandOver()
 		}
 		r.inflight, r.missed = "", false
 		if t := r.env.fc.tip().height; t > r.maxTip && ctx == "reconnect" {
@@ -800,6 +798,23 @@ func (r *syncRunner) noteRace() {
 func (r *syncRunner) noteZero() {
 	if s := r.env.w.Manager.SyncedTo(); s.Hash == (chainhash.Hash{}) {
 		r.zeroAt[s.Height] = true
+	}
+}
+
+// settleRescanHandOver waits until rescanBatchHandler has handed the RescanFinished it just received over to
+// rescanProgressHandler and is back in its main select.  When the caller's sentinel was taken, handleChainNotifications
+// had completed `w.rescanNotifications <- n`, i.e. rescanBatchHandler had received the notification (it is runnable or
+// further); rescanProgressHandler is idle in its select, so the hand-over completes as soon as rescanBatchHandler runs,
+// and the next time that goroutine is parked in a select it is the outer one.  This is a state of the real wallet, not
+// a sleep (it used to be 2 ms, which is too short on a loaded machine: the unchanged-tree shutdown hang then costs
+// stopTimeout per occurrence).  VX_NO_SETTLE=1 skips the wait to reproduce the hang.
+func settleRescanHandOver() {
+	if os.Getenv("VX_NO_SETTLE") != "" {
+		return
+	}
+	deadline := time.Now().Add(5 * time.Second) // best effort: env.stop has its own time limit if the hang happens
+	for !goroutineParked("wallet.(*Wallet).rescanBatchHandler", "select") && time.Now().Before(deadline) {
+		time.Sleep(200 * time.Microsecond)
 	}
 }
 
